@@ -63,13 +63,19 @@ def judgeable_string(text: str) -> bool:
     return is_xml_text(text) and not has_line_break(text)
 
 
-def strings_in(value: Any) -> List[str]:
+def strings_in(value: Any, pm: Any = None) -> List[str]:
     if isinstance(value, instances.Inst):
-        return [s for v in value.props.values() for s in strings_in(v)]
+        return [s for v in value.props.values() for s in strings_in(v, pm)]
     if isinstance(value, list):
-        return [s for v in value for s in strings_in(v)]
+        return [s for v in value for s in strings_in(v, pm)]
     if isinstance(value, str):
         return [value]
+    if isinstance(value, instances.EnumVal) and pm is not None:
+        # the text of an enumeration literal is written into the document as well
+        cls = pm.classes.get(value.enum)
+        for literal, text in (getattr(cls, "literals", None) or []):
+            if literal == value.literal and isinstance(text, str):
+                return [text]
     return []
 
 
